@@ -39,18 +39,22 @@ static time_t h_time(time_t *p) { if (p) *p = h_clock; return h_clock; }
 /* ---- fault injection: stat()/unlink()/open_read() of a poisoned path fail with EIO (the libc call is
  * replaced by a wrapper inside the included source only; everything else goes to the real call) */
 #define HPOISON 40
-static char h_poison[3][HPOISON][96];   /* 0 = stat, 1 = unlink, 2 = open_read */
-static int h_npoison[3];
+static char h_poison[4][HPOISON][96];   /* 0 = stat, 1 = unlink, 2 = open_read, 3 = utimes */
+static int h_npoison[4];
 static long h_faults_hit;
 static int h_poisoned(int k, const char *p) {
   for (int i = 0; i < h_npoison[k]; i++) if (!strcmp(h_poison[k][i], p)) { errno = EIO; h_faults_hit++; return 1; }
   return 0;
 }
 static void h_poison_add(int k, const char *p) { if (h_npoison[k] < HPOISON) { strncpy(h_poison[k][h_npoison[k]], p, 95); h_npoison[k]++; } }
-static void h_poison_clear(void) { h_npoison[0] = h_npoison[1] = h_npoison[2] = 0; }
+static void h_poison_clear(void) { h_npoison[0] = h_npoison[1] = h_npoison[2] = h_npoison[3] = 0; }
 static int h_stat(const char *p, struct stat *st) { if (h_poisoned(0, p)) return -1; return stat(p, st); }
 static int h_unlink(const char *p) { if (h_poisoned(1, p)) return -1; return unlink(p); }
 static int h_open_read(const char *p) { if (h_poisoned(2, p)) return -1; return open_read(p); }
+static int h_utimes(const char *p, const struct timeval *t) { if (h_poisoned(3, p)) return -1; return utimes(p, t); }
+/* "trouble reading": read() on this descriptor fails with EIO (the channel file of the pass about to be opened) */
+static int h_read_fail_fd = -1;
+static ssize_t h_read(int fd, void *b, size_t n) { if (fd >= 0 && fd == h_read_fail_fd) { errno = EIO; h_faults_hit++; return -1; } return read(fd, b, n); }
 
 /* main()'s exit sequence is pqfinish(); pass_finish(); (since be3a18d) - weak, so that a tree without it still builds */
 void pass_finish() __attribute__((weak));
@@ -59,11 +63,15 @@ void pass_finish() __attribute__((weak));
 #define stat(p,b) h_stat(p,b)
 #define unlink(p) h_unlink(p)
 #define open_read(p) h_open_read(p)
+#define utimes(p,t) h_utimes(p,t)
+#define read h_read
 #define _exit(x) h_exit(x)
 #define main qmail_send_main
 #include "qmail-send.c"
 #undef main
 #undef _exit
+#undef read
+#undef utimes
 #undef open_read
 #undef unlink
 #undef stat
@@ -79,6 +87,20 @@ static int nomem_calls;
 void nomem(void) { if (++nomem_calls > 3) { fprintf(stderr, "c15 harness: nomem() loop\n"); fflush(h_out); _exit(97); } }
 void pausedir(char *d) { fprintf(stderr, "c15 harness: pausedir(%s)\n", d); fflush(h_out); _exit(98); }
 void logsafe(char *s) { log1(s); }
+
+/* ---- stand-in for qmail.o (excluded from the link): a bounce injection succeeds unless the message text could not be read */
+#include "qmail.h"
+static int h_nbounce;
+int qmail_open(struct qmail *qq) { qq->flagerr = 0; qq->pid = 9000 + h_nbounce; qq->fdm = 1; return 0; }
+unsigned long qmail_qp(struct qmail *qq) { return qq->pid; }
+void qmail_fail(struct qmail *qq) { qq->flagerr = 1; }
+void qmail_put(struct qmail *qq, char *s, size_t len) { (void)qq; (void)s; (void)len; }
+#ifndef qmail_puts
+void qmail_puts(struct qmail *qq, char *s) { (void)qq; (void)s; }
+#endif
+void qmail_from(struct qmail *qq, char *s) { (void)qq; (void)s; }
+void qmail_to(struct qmail *qq, char *s) { (void)qq; (void)s; }
+char *qmail_close(struct qmail *qq) { h_nbounce++; return qq->flagerr ? "Zqq read error (#4.3.0)" : ""; }
 
 /* ------------------------------------------------------------------ Q: squareroot */
 static long q_lines, q_cap = 400000;
